@@ -81,12 +81,15 @@ fn analysis_rule(r: &Value) -> Rule {
     let scheme = if s(r, "scheme").is_empty() { "http".to_string() } else { s(r, "scheme") };
     // some rules stop / reset the fold (the action trace must show it)
     if id == "r2" { v["stop"] = json!(true); }
+    // r1 acts on a backend 404 only, and its example says the backend answers 404
+    let on404 = id == "r1";
+    if on404 { v["source"]["response_status_codes"] = json!([404]); }
     if id == "r3" { v["reset"] = json!(true); v["configuration_reset_unit_id"] = json!("u-reset-r3"); }
     v["redirect_unit_id"] = json!(format!("u-{}", id));
     v["target_hash"] = json!(format!("th-{}", id));
     v["header_filters"] = json!([{"action": "add", "header": "X-Rule", "value": id, "id": format!("uh-{}", id), "target_hash": format!("thh-{}", id)}]);
     v["body_filters"] = json!([{"action": "append_child", "value": format!("<i>{}</i>", id), "element_tree": ["html", "body"], "css_selector": null, "id": format!("ub-{}", id), "target_hash": null}]);
-    v["examples"] = json!([{"url": format!("{}://{}{}", scheme, host, path), "method": null, "headers": null, "ip_address": null, "response_status_code": null,
+    v["examples"] = json!([{"url": format!("{}://{}{}", scheme, host, path), "method": null, "headers": null, "ip_address": null, "response_status_code": if on404 { json!(404) } else { Value::Null },
                             "must_match": true, "unit_ids_applied": [format!("u-{}", id)]}]);
     serde_json::from_value(v).expect("analysis rule")
 }
@@ -128,6 +131,35 @@ fn h(v: &Value) -> String {
     fnv(&serde_json::to_string(v).unwrap())
 }
 
+/// the live pipeline, by hand, in proxy order: request-time decision first, then the backend's code
+fn pipeline_of(fresh: &Router<Rule>, config: &RouterConfig, example: &Example) -> Value {
+    match Request::from_example(config, example) {
+        Err(_) => json!("error"),
+        Ok(req) => {
+            let routes = fresh.match_request(&req);
+            // C17: the action trace ends in the action the pipeline computes (ranks are distinct)
+            let steps = TraceAction::from_trace_rules(&fresh.trace_request(&req), &req);
+            let last = steps.last().map(|t| serde_json::to_value(t).unwrap()["action"].clone()).unwrap_or_else(|| serde_json::to_value(Action::default()).unwrap());
+            let direct = serde_json::to_value(Action::from_routes_rule(routes.clone(), &req, None)).unwrap();
+            let mut a = Action::from_routes_rule(routes, &req, None);
+            let s0 = a.get_status_code(0, None);
+            let request_time = s0 != 0;
+            let (fin, backend) = if request_time { (s0, s0) } else { let b = example.response_status_code.unwrap_or(200); (a.get_status_code(b, None), b) };
+            let headers = a.filter_headers(Vec::new(), backend, false, None);
+            let mut body = b"<!DOCTYPE html>\n<html>\n    <head>\n    </head>\n    <body>\n    </body>\n</html>".to_vec();
+            if let Some(mut f) = a.create_filter_body(backend, &[]) {
+                let mut b1 = f.filter(body.clone(), None);
+                b1.extend(f.end(None));
+                body = b1;
+            }
+            let log = a.should_log_request(true, fin, None);
+            json!({"resp": {"status": fin, "headers": headers, "body": String::from_utf8_lossy(&body), "log": log},
+                   "request_time_with_code": request_time && example.response_status_code.is_some(),
+                   "trace_action_equal": h(&last) == h(&direct), "ta_dbg": if h(&last) != h(&direct) { json!([last, direct]) } else { json!([]) }})
+        }
+    }
+}
+
 pub fn run(case: &Value) -> Vec<Value> {
     if case["kind"].as_str() == Some("loop") {
         return run_loop(case);
@@ -160,40 +192,19 @@ pub fn run(case: &Value) -> Vec<Value> {
                 for r in &result_rules {
                     fresh.insert(r.clone());
                 }
-                for q in &probes {
-                    let example = example_of(&config, q, hdrs);
+                for (q, code) in probes.iter().flat_map(|q| [(q, None), (q, Some(404u16))]) {
+                    let mut example = example_of(&config, q, hdrs);
+                    example.response_status_code = code;
                     let pj = ExplainRequestOutput::create_result_from_project(ExplainRequestProjectInput { example: example.clone(), change_set: cs.clone(), max_hops: 3, project_domains: vec![] }, existing_arc.clone());
                     let sa = ExplainRequestOutput::create_result_without_project(ExplainRequestInput { router_config: config.clone(), example: example.clone(), rules: result_rules.clone(), max_hops: 3, project_domains: vec![] });
                     let sr = ExplainRequestOutput::create_result_without_project(ExplainRequestInput { router_config: config.clone(), example: example.clone(), rules: reversed.clone(), max_hops: 3, project_domains: vec![] });
                     let pv = |x: &Result<ExplainRequestOutput, _>| match x { Ok(o) => project_item(&serde_json::to_value(o).unwrap()), Err(_) => json!("error") };
                     let (pj, sa, sr) = (pv(&pj), pv(&sa), pv(&sr));
-                    // the live pipeline, by hand, in proxy order
-                    let pipeline = match Request::from_example(&config, &example) {
-                        Err(_) => json!("error"),
-                        Ok(req) => {
-                            let routes = fresh.match_request(&req);
-                            // C17: the action trace ends in the action the pipeline computes (ranks are distinct)
-                            let steps = TraceAction::from_trace_rules(&fresh.trace_request(&req), &req);
-                            let last = steps.last().map(|t| serde_json::to_value(t).unwrap()["action"].clone()).unwrap_or_else(|| serde_json::to_value(Action::default()).unwrap());
-                            let direct = serde_json::to_value(Action::from_routes_rule(routes.clone(), &req, None)).unwrap();
-                            let mut a = Action::from_routes_rule(routes, &req, None);
-                            let s0 = a.get_status_code(0, None);
-                            let (fin, backend) = if s0 != 0 { (s0, s0) } else { (a.get_status_code(200, None), 200) };
-                            let headers = a.filter_headers(Vec::new(), backend, false, None);
-                            let mut body = b"<!DOCTYPE html>\n<html>\n    <head>\n    </head>\n    <body>\n    </body>\n</html>".to_vec();
-                            if let Some(mut f) = a.create_filter_body(backend, &[]) {
-                                let mut b1 = f.filter(body.clone(), None);
-                                b1.extend(f.end(None));
-                                body = b1;
-                            }
-                            let log = a.should_log_request(true, fin, None);
-                            json!({"resp": {"status": fin, "headers": headers, "body": String::from_utf8_lossy(&body), "log": log},
-                                   "trace_action_equal": h(&last) == h(&direct), "ta_dbg": if h(&last) != h(&direct) { json!([last, direct]) } else { json!([]) }})
-                        }
-                    };
+                    let pipeline = pipeline_of(&fresh, &config, &example);
                     let resp_of = |x: &Value| json!({"status": x["status"], "headers": x["headers"], "body": x["body"], "log": x["log"]});
                     let dbg = if h(&pj) != h(&sa) || h(&sa) != h(&sr) { json!([pj, sa, sr]) } else { json!([]) };
                     items.push(json!({"q": q, "dbg": dbg, "explain": [h(&pj), h(&sa), h(&sr)], "resp_explain": h(&resp_of(&pj)), "resp_pipeline": if pipeline.is_object() { h(&pipeline["resp"]) } else { h(&json!("error")) },
+                                      "code": code.unwrap_or(0), "request_time_with_code": pipeline.get("request_time_with_code").cloned().unwrap_or(json!(false)),
                                       "trace_action_equal": pipeline.get("trace_action_equal").cloned().unwrap_or(json!(true)), "ta_dbg": pipeline.get("ta_dbg").cloned().unwrap_or(json!([])), "status": pj["status"], "rules": pj["rules"]}));
                 }
                 // ---- test examples, unit ids ----
@@ -214,16 +225,26 @@ pub fn run(case: &Value) -> Vec<Value> {
                 let changed: Option<(Rule, &str)> = cs.added.first().map(|r| (r.clone(), "add")).or_else(|| cs.updated.first().map(|r| (r.clone(), "update")))
                     .or_else(|| cs.deleted.iter().next().and_then(|id| existing_arc.get_route_by_id(id).map(|r| (r.handler().clone(), "delete"))));
                 let mut impact = json!([]);
+                let mut impact_items: Vec<Value> = Vec::new();
                 if let Some((rule, action)) = changed {
                     let im = |o: &ImpactOutput| { let v = serde_json::to_value(o).unwrap(); json!(v["impacts"].as_array().unwrap().iter().map(project_item).collect::<Vec<Value>>()) };
                     let ip = ImpactOutput::from_impact_project(ImpactProjectInput { max_hops: 3, with_redirection_loop: true, domains: vec![], rule: rule.clone(), action: action.to_string(), change_set: cs.clone() }, existing_arc.clone());
                     let is = ImpactOutput::create_result(ImpactInput { router_config: config.clone(), max_hops: 3, with_redirection_loop: true, domains: vec![], rule: rule.clone(), action: action.to_string(), rules: result_rules.clone() });
                     let ir = ImpactOutput::create_result(ImpactInput { router_config: config.clone(), max_hops: 3, with_redirection_loop: true, domains: vec![], rule, action: action.to_string(), rules: reversed.clone() });
                     impact = json!([h(&im(&ip)), h(&im(&is)), h(&im(&ir))]);
+                    // the response an impact item reports vs the live pipeline on the resulting router
+                    let resp_of2 = |x: &Value| json!({"status": x["status"], "headers": x["headers"], "body": x["body"], "log": x["log"]});
+                    for it in im(&ip).as_array().unwrap() {
+                        if it["error"] != json!(null) && it["error"] != json!("null") { continue; }
+                        let ex: Example = serde_json::from_value(serde_json::to_value(&ip).unwrap()["impacts"][impact_items.len()]["example"].clone()).unwrap();
+                        let pl = pipeline_of(&fresh, &config, &ex);
+                        impact_items.push(json!({"resp_impact": h(&resp_of2(it)), "resp_pipeline": if pl.is_object() { h(&pl["resp"]) } else { h(&json!("error")) },
+                                                 "request_time_with_code": pl.get("request_time_with_code").cloned().unwrap_or(json!(false))}));
+                    }
                 }
                 evs.push(json!({"ev": "analyses", "o": {"op": "fork", "h": 2, "ids": o["ids"]}, "items": items,
                                 "test_examples": [h(&te(&te_p)), h(&te(&te_s)), h(&te(&te_r))], "te": te(&te_p),
-                                "unit_ids": [h(&ui(&ui_p)), h(&ui(&ui_s)), h(&ui(&ui_r))], "impact": impact,
+                                "unit_ids": [h(&ui(&ui_p)), h(&ui(&ui_s)), h(&ui(&ui_r))], "impact": impact, "impact_items": impact_items,
                                 "existing_len_after": existing_arc.len(), "existing_len_before": existing.len()}));
                 existing = Arc::try_unwrap(existing_arc).unwrap_or_else(|a| (*a).clone());
             }
